@@ -108,12 +108,13 @@ pub(crate) fn is_id(c: char) -> bool {
 }
 
 impl Cursor<'_> {
-    // TODO: ugly
+    /// Next token that is neither white space nor a comment.
     pub fn advance_real(&mut self) -> Result<Token> {
-        match self.advance_token() {
-            Ok(tok) if tok.kind == TokenKind::Whitespace => self.advance_token(),
-            Ok(tok) => Ok(tok),
-            Err(err) => Err(err),
+        loop {
+            let tok = self.advance_token()?;
+            if !matches!(tok.kind, TokenKind::Whitespace | TokenKind::Comment) {
+                return Ok(tok);
+            }
         }
     }
 
